@@ -225,3 +225,57 @@ def edge_prose(rng, min_words=8, max_words=30, density=0.3, terminal=".", kinds=
         ws.append(word(rng))
     s = " ".join(ws)
     return s + terminal if terminal else s
+
+
+# ---- shapes that proofs found inside the "no finding" regions of the round-trip classifiers (recorded finding classes of
+#      C02 / C03 / C04: prose-exotic-blank, summary-quoted / help-quoted, summary-reads-as-section, type-text-not-docstring-safe)
+# the ASCII characters str.splitlines splits at, the line feed apart (US, \x1f, is a blank but not a line boundary)
+EXOTIC_BLANKS = ["\x0b", "\x0c", "\r", "\x1c", "\x1d", "\x1e"]
+
+
+def exotic_blank_prose(rng, max_words=7):
+    """clean prose (plain words, full stop) in which one or two inner positions hold a line boundary other than the line
+    feed in place of the blank.  Never at either end (outer blanks are another shape)"""
+    ws = [word(rng) for _ in range(rng.randint(2, max(2, max_words)))]
+    seps = [" "] * (len(ws) - 1)
+    for k in rng.sample(range(len(seps)), min(len(seps), rng.choice([1, 1, 1, 2]))):
+        seps[k] = rng.choice(EXOTIC_BLANKS)
+    return "".join(w + s for w, s in zip(ws, seps + [""])) + "."
+
+
+def quoted_text(rng):
+    """a one-line text that starts and ends with the same quote mark (more than two characters): a quoted word or phrase,
+    or a sentence that merely begins and ends with quoted words"""
+    q = rng.choice(["'", '"'])
+    k = rng.random()
+    if k < 0.45:
+        return q + " ".join(word(rng) for _ in range(rng.randint(1, 4))) + q
+    if k < 0.8:
+        return "%s%s%s %s %s%s%s" % (q, word(rng), q, rng.choice(["and", "or", "then", "is not"]), q, word(rng), q)
+    return q + clean_prose(rng, max_words=5) + q
+
+
+def section_summary(rng):
+    """a summary that holds a Google / numpydoc section header (what parse_docstring looks for when the docstring holds
+    no ReST field token)"""
+    w = " ".join(word(rng) for _ in range(rng.randint(1, 3)))
+    t = rng.choice(["int", "str", "the result", "x: the thing", "np.ndarray"])
+    k = rng.choice(["google-returns", "google-returns", "google-returns-inline", "google-args", "google-raises",
+                    "numpydoc-returns", "numpydoc-parameters", "google-bare", "google-kwargs"])
+    if k == "google-returns":
+        s = "Returns:\n  " + t
+    elif k == "google-returns-inline":
+        s = "Returns: " + t
+    elif k == "google-args":
+        s = "Args:\n  %s: %s" % (ident(rng), clean_prose(rng, max_words=4))
+    elif k == "google-kwargs":
+        s = "Kwargs:\n  %s: %s" % (ident(rng), clean_prose(rng, max_words=4))
+    elif k == "google-raises":
+        s = "Raises:\n  ValueError"
+    elif k == "numpydoc-returns":
+        s = "Returns\n-------\n" + t
+    elif k == "numpydoc-parameters":
+        s = "Parameters\n----------\n%s : int\n  %s" % (ident(rng), clean_prose(rng, max_words=4))
+    else:
+        s = "Returns:"
+    return (w.capitalize() + ".\n\n" + s) if rng.random() < 0.4 else s
